@@ -9,7 +9,7 @@ use crate::{Error, Result};
 use arrow::compute::filter_record_batch;
 use arrow_array::cast::AsArray;
 use arrow_array::{Array, BooleanArray, RecordBatch};
-use sqlparser::ast::{BinaryOperator, Expr, SetExpr, Statement, Value};
+use sqlparser::ast::{BinaryOperator, Expr, SetExpr, Statement, UnaryOperator, Value};
 use sqlparser::dialect::GenericDialect;
 use sqlparser::parser::Parser;
 use std::sync::Arc;
@@ -372,20 +372,31 @@ impl QueryFilter {
                 Value::SingleQuotedString(s) | Value::DoubleQuotedString(s) => {
                     Some(PredicateValue::String(s.to_string()))
                 }
-                Value::Number(n, _) => {
-                    if let Ok(i) = n.parse::<i64>() {
-                        Some(PredicateValue::Int64(i))
-                    } else if let Ok(f) = n.parse::<f64>() {
-                        Some(PredicateValue::Float64(f))
-                    } else {
-                        None
-                    }
-                }
+                Value::Number(n, _) => Self::parse_number(n),
                 Value::Boolean(b) => Some(PredicateValue::Boolean(*b)),
                 Value::Null => Some(PredicateValue::Null),
                 _ => None,
             },
+            // A negative literal is parsed as unary minus applied to a number
+            Expr::UnaryOp {
+                op: UnaryOperator::Minus,
+                expr,
+            } => match expr.as_ref() {
+                Expr::Value(Value::Number(n, _)) => Self::parse_number(&format!("-{}", n)),
+                _ => None,
+            },
             _ => None,
+        }
+    }
+
+    /// Parse the text of a numeric literal: Int64 when it fits, else Float64
+    fn parse_number(n: &str) -> Option<PredicateValue> {
+        if let Ok(i) = n.parse::<i64>() {
+            Some(PredicateValue::Int64(i))
+        } else if let Ok(f) = n.parse::<f64>() {
+            Some(PredicateValue::Float64(f))
+        } else {
+            None
         }
     }
 
@@ -551,30 +562,62 @@ impl QueryFilter {
                             };
                         }
                     }
+                } else if let Some(arr) =
+                    column.as_primitive_opt::<arrow_array::types::Float64Type>()
+                {
+                    // Integer literal against a float column: compared as floats,
+                    // like the query engine does after type coercion
+                    Self::apply_float_comparison(pred, arr.iter(), *expected as f64, mask);
                 }
             }
             PredicateValue::Float64(expected) => {
                 if let Some(arr) = column.as_primitive_opt::<arrow_array::types::Float64Type>() {
-                    for (i, val_opt) in arr.iter().enumerate() {
-                        if mask[i] {
-                            mask[i] = match (pred, val_opt) {
-                                (ColumnPredicate::Eq(..), Some(v)) => {
-                                    (v - expected).abs() < f64::EPSILON
-                                }
-                                (ColumnPredicate::NotEq(..), Some(v)) => {
-                                    (v - expected).abs() >= f64::EPSILON
-                                }
-                                (ColumnPredicate::Lt(..), Some(v)) => v < *expected,
-                                (ColumnPredicate::LtEq(..), Some(v)) => v <= *expected,
-                                (ColumnPredicate::Gt(..), Some(v)) => v > *expected,
-                                (ColumnPredicate::GtEq(..), Some(v)) => v >= *expected,
-                                _ => false,
-                            };
-                        }
-                    }
+                    Self::apply_float_comparison(pred, arr.iter(), *expected, mask);
+                } else if let Some(arr) = column.as_primitive_opt::<arrow_array::types::Int64Type>()
+                {
+                    // Float literal against an integer column: the engine casts the
+                    // column to Float64
+                    Self::apply_float_comparison(
+                        pred,
+                        arr.iter().map(|v| v.map(|v| v as f64)),
+                        *expected,
+                        mask,
+                    );
                 }
             }
             _ => {} // Boolean/Null: no-op for streaming filters
+        }
+    }
+
+    /// Compare float values with a float literal the way the query engine does:
+    /// Arrow's comparison kernels order floats by IEEE 754 totalOrder, so equality
+    /// is exact (no tolerance), NaN sorts above every number and -0.0 below 0.0.
+    /// The live tail must agree with the historical part of the same query.
+    fn apply_float_comparison(
+        pred: &ColumnPredicate,
+        values: impl Iterator<Item = Option<f64>>,
+        expected: f64,
+        mask: &mut [bool],
+    ) {
+        use std::cmp::Ordering;
+        for (i, val_opt) in values.enumerate() {
+            if mask[i] {
+                mask[i] = match val_opt {
+                    Some(v) => {
+                        let ord = v.total_cmp(&expected);
+                        match pred {
+                            ColumnPredicate::Eq(..) => ord == Ordering::Equal,
+                            ColumnPredicate::NotEq(..) => ord != Ordering::Equal,
+                            ColumnPredicate::Lt(..) => ord == Ordering::Less,
+                            ColumnPredicate::LtEq(..) => ord != Ordering::Greater,
+                            ColumnPredicate::Gt(..) => ord == Ordering::Greater,
+                            ColumnPredicate::GtEq(..) => ord != Ordering::Less,
+                            _ => false,
+                        }
+                    }
+                    None => false,
+                };
+            }
         }
     }
 
